@@ -162,7 +162,7 @@ def bsonProbes : List (String × Bytes × Kind) :=
    ("document_type", [5, 0, 0, 0, 0], .map), ("array_type", [5, 0, 0, 0, 0], .arr),
    ("bool_type", [1], .true_), ("datetime_type", [1, 0, 0, 0, 0, 0, 0, 0], .int), ("null_type", [], .null),
    ("int32_type", [0xff, 0xff, 0xff, 0xff], .int), ("int64_type", [1, 0, 0, 0, 0, 0, 0, 0], .int),
-   ("binary_type", [1, 0, 0, 0, 0, 0xff], .unjudged), ("undefined_type", [], .unjudged), ("object_id_type", [1, 2, 3, 4, 5, 6, 7, 8, 9, 10, 11, 12], .unjudged),
+   ("binary_type", [1, 0, 0, 0, 0, 0xff], .bytes), ("undefined_type", [], .unjudged), ("object_id_type", [1, 2, 3, 4, 5, 6, 7, 8, 9, 10, 11, 12], .unjudged),
    ("regex_type", [0x61, 0, 0], .unjudged), ("javascript_type", [1, 0, 0, 0, 0], .unjudged), ("symbol_type", [1, 0, 0, 0, 0], .unjudged),
    ("javascript_with_scope_type", [], .unjudged), ("timestamp_type", [1, 0, 0, 0, 0, 0, 0, 0], .unjudged),
    ("decimal128_type", [0, 0, 0, 0, 0, 0, 0, 0, 0, 0, 0, 0, 0, 0, 0x40, 0x30], .unjudged), ("min_key_type", [], .unjudged), ("max_key_type", [], .unjudged)]
